@@ -47,7 +47,9 @@ def from_str_harness(spec: EnumSpec, N, name="h_from_str", utf8=True, fixed=None
     lines.append("    let o = oracle(ss.bytes());")
     ncov = 0
     if covers and fixed is None:
-        en = [(i, v) for i, v in enumerate(spec.variants) if not v.disabled and not v.default]
+        # only variants with a spelling that fits the bound can be witnessed (N may be capped below a long spelling)
+        en = [(i, v) for i, v in enumerate(spec.variants) if not v.disabled and not v.default
+              and any(len(sp.encode()) <= N for sp in spellings(spec, v)) and parse_oracle(spec, min(spellings(spec, v), key=lambda x: len(x.encode()))) is v]
         for i, v in en[:2] + en[-1:]:
             lines.append('    vcover!(o == Some(%d), "input is a spelling of %s");' % (i, v.ident))
             ncov += 1
